@@ -17,8 +17,11 @@ SPEC_FILES = ["Spec/Core.lean"]
 ASSUMPTIONS = ["cross-credential rejection holds under the idealisation UniqueKey (a signature valid under one key is not valid under another)"]
 
 
-def register(fmt, choice, idx):
-    b = _reg.build(fmt, choice, (), cred_id=bytes([idx]) * 20)
+RP_IDS = ["example.com", "Login.Example.org", "b\u00fccher.example", "localhost", "EXAMPLE.COM", "xn--bcher-kva.example"]
+
+
+def register(fmt, choice, idx, **kw):
+    b = _reg.build(fmt, choice, (), cred_id=bytes([idx]) * 20, **kw)
     if b is None:
         return None
     req, r = b
@@ -34,7 +37,15 @@ def work(tasks, idx):
     for t in tasks:
         if t[0] == "chain":
             _, fmt, choice, n = t
-            out = register(fmt, choice, 1)
+            # every other chain: the envelope's rawId differs from the attested credential id (nothing compares them at
+            # registration); what is returned and stored must be the id the authenticator will present later
+            kw = {"envelope_id": bytes(range(40, 56))} if (n + len(fmt)) % 2 and fmt != "fido-u2f" else {}
+            # the RP ID is whatever string the RP uses, the same in both ceremonies (mixed case, non-ASCII, an IP-like
+            # or single-label name): "the same RP" means that string
+            rp_id = RP_IDS[(n + len(choice[0]) + len(fmt)) % len(RP_IDS)]
+            kw["rp_id"] = rp_id
+            kw["origin"] = "https://" + rp_id
+            out = register(fmt, choice, 1, **kw)
             if out is None:
                 continue
             req, r, e, code = out
@@ -48,7 +59,7 @@ def work(tasks, idx):
             cred = req.cred
             stored = int(code["record"]["sign_count"])
             for k in range(n):
-                a, ea, _ = faults.build_assertion(cred, counter=stored + 1 + k, stored=stored)
+                a, ea, _ = faults.build_assertion(cred, counter=stored + 1 + k, stored=stored, rp_id=rp_id, origin="https://" + rp_id)
                 ea["public_key"] = stored_key
                 ea["stored_count"] = stored
                 ca_ = cases.run_auth(a, ea)
